@@ -1,2 +1,144 @@
-import Model.Bls
-theorem C01.placeholder : Bls.padTo 8 3 = 8 := by decide
+import Proofs.BlsMinMax
+/-!
+# C01 — bit length set algebra is exact for every composition and every divisor
+
+`Bls.den : Op → Finset ℕ` (Proofs/BlsSpec.lean) is the mathematically defined set of an operator tree:
+element-wise sums over cartesian products (`cat`), unions (`uni`), k-fold multiset sums (`rep`), their union
+over `0..k` (`rrep`), every element rounded up to a multiple of the alignment (`pad`, characterised by
+`C01.pad_is_round_up`).  The theorems below hold for every well-formed tree (non-empty leaves and child lists,
+alignment ≥ 1 — exactly what the Python constructors accept) and every divisor `d ≥ 1`: no bound on nesting,
+repetition counts, values or divisors.
+-/
+open scoped Pointwise
+open Bls
+
+/-- `pad` really is "round up to a multiple of the alignment": the least multiple of `a` not below `x`. -/
+theorem C01.pad_is_round_up (a x : ℕ) (ha : 1 ≤ a) :
+    a ∣ padTo a x ∧ x ≤ padTo a x ∧ ∀ m, a ∣ m → x ≤ m → padTo a x ≤ m :=
+  ⟨padTo_dvd a x, le_padTo a x ha, fun m hm hx => padTo_least a x m ha hm hx⟩
+
+/-- The residue set `% d` is exactly the set of residues of the defined set (no duplicates, so `len` is exact too). -/
+theorem C01.modulo_exact (o : Op) (h : o.wf = true) (d : ℕ) (hd : 1 ≤ d) :
+    (o.modulo d).toFinset = (den o).image (· % d) ∧ (o.modulo d).Nodup :=
+  ⟨Bls.modulo_exact o h d hd, modulo_nodup o d⟩
+
+/-- `min` and `max` are the least and the greatest element of the defined set. -/
+theorem C01.min_max_exact (o : Op) (h : o.wf = true) :
+    o.min = (den o).min' (den_nonempty o h) ∧ o.max = (den o).max' (den_nonempty o h) := by
+  obtain ⟨h1, h2⟩ := min_exact o h
+  obtain ⟨h3, h4⟩ := max_exact o h
+  refine ⟨le_antisymm ?_ ?_, le_antisymm ?_ ?_⟩
+  · exact (Finset.le_min'_iff _ _).mpr fun y hy => h2 y hy
+  · exact Finset.min'_le _ _ h1
+  · exact Finset.le_max' _ _ h3
+  · exact (Finset.max'_le_iff _ _).mpr fun y hy => h4 y hy
+
+/-- `fixed_length` (`min == max`) holds exactly when the defined set has one element. -/
+theorem C01.fixed_length_exact (o : Op) (h : o.wf = true) : fixedLength o = true ↔ (den o).card = 1 := by
+  obtain ⟨h1, h2⟩ := min_exact o h
+  obtain ⟨h3, h4⟩ := max_exact o h
+  simp only [fixedLength, beq_iff_eq]
+  constructor
+  · intro heq
+    rw [Finset.card_eq_one]
+    refine ⟨o.min, ?_⟩
+    ext x
+    simp only [Finset.mem_singleton]
+    constructor
+    · intro hx; exact le_antisymm (heq ▸ h4 x hx) (h2 x hx)
+    · rintro rfl; exact h1
+  · intro hc
+    obtain ⟨a, ha⟩ := Finset.card_eq_one.mp hc
+    rw [ha] at h1 h3
+    rw [Finset.mem_singleton.mp h1, Finset.mem_singleton.mp h3]
+
+/-- `is_aligned_at(d)` holds exactly when every element of the defined set is a multiple of `d`. -/
+theorem C01.aligned_exact (o : Op) (h : o.wf = true) (d : ℕ) (hd : 1 ≤ d) :
+    isAlignedAt o d = true ↔ ∀ x ∈ den o, d ∣ x := by
+  have hm := Bls.modulo_exact o h d hd
+  have hne := den_nonempty o h
+  simp only [isAlignedAt, Bool.and_eq_true, List.all_eq_true, beq_iff_eq, Bool.not_eq_true',
+    List.isEmpty_eq_false_iff]
+  constructor
+  · rintro ⟨h0, _⟩ x hx
+    have : x % d ∈ (o.modulo d).toFinset := by rw [hm]; exact Finset.mem_image_of_mem _ hx
+    exact Nat.dvd_of_mod_eq_zero (h0 _ (by simpa using this))
+  · intro hall
+    refine ⟨?_, ?_⟩
+    · intro r hr
+      have : r ∈ (den o).image (· % d) := by rw [← hm]; simpa using hr
+      obtain ⟨x, hx, rfl⟩ := Finset.mem_image.mp this
+      exact Nat.mod_eq_zero_of_dvd (hall x hx)
+    · obtain ⟨x, hx⟩ := hne
+      have : x % d ∈ (o.modulo d).toFinset := by rw [hm]; exact Finset.mem_image_of_mem _ hx
+      intro hnil
+      rw [hnil] at this
+      simp at this
+
+/-- Numerical expansion (iteration, `len`) yields exactly the defined set, each element once. -/
+theorem C01.expand_exact (o : Op) :
+    (o.expand).toFinset = den o ∧ (o.expand).Nodup ∧ (o.expand).length = (den o).card := by
+  refine ⟨Bls.expand_exact o, expand_nodup o, ?_⟩
+  rw [← Bls.expand_exact o, List.card_toFinset, List.Nodup.dedup (expand_nodup o)]
+
+/-- Neither the `equivalent_k` congruence asserts nor `x <= mx and x < lcm` can fire. -/
+theorem C01.asserts_never_fire (o : Op) (h : o.wf = true) (d : ℕ) (hd : 1 ≤ d) : o.assertsOk d = true :=
+  Bls.asserts_never_fire o h d hd
+
+/-- The defined set of a well-formed tree is non-empty (so `min`/`max` are meaningful). -/
+theorem C01.den_nonempty (o : Op) (h : o.wf = true) : (den o).Nonempty := Bls.den_nonempty o h
+
+/-! ### The memoisation wrapper is transparent for every query history -/
+
+/-- Cache invariant: every cached entry equals the child's own answer. -/
+def MemoOk (o : Op) (s : MemoState) : Prop :=
+  (∀ v, s.min = some v → v = o.min) ∧ (∀ v, s.max = some v → v = o.max) ∧
+  (∀ d v, s.modula.lookup d = some v → v = o.modulo d) ∧ (∀ v, s.expansion = some v → v = o.expand)
+
+theorem C01.memo_step (o : Op) (s : MemoState) (q : Query) (hs : MemoOk o s) :
+    (memoStep o s q).2 = answer o q ∧ MemoOk o (memoStep o s q).1 := by
+  obtain ⟨h1, h2, h3, h4⟩ := hs
+  cases q with
+  | qMin =>
+    simp only [memoStep]
+    split
+    · next v hv => exact ⟨by simp [answer, h1 v hv], h1, h2, h3, h4⟩
+    · next hv => exact ⟨rfl, by simp, h2, h3, h4⟩
+  | qMax =>
+    simp only [memoStep]
+    split
+    · next v hv => exact ⟨by simp [answer, h2 v hv], h1, h2, h3, h4⟩
+    · next hv => exact ⟨rfl, h1, by simp, h3, h4⟩
+  | qMod d =>
+    simp only [memoStep]
+    split
+    · next v hv => exact ⟨by simp [answer, h3 d v hv], h1, h2, h3, h4⟩
+    · next hv =>
+      refine ⟨rfl, h1, h2, ?_, h4⟩
+      intro d' v hv'
+      simp only [List.lookup_cons] at hv'
+      split at hv'
+      · next heq => simp only [beq_iff_eq] at heq; subst heq; exact (Option.some.inj hv').symm
+      · exact h3 d' v hv'
+  | qExpand =>
+    simp only [memoStep]
+    split
+    · next v hv => exact ⟨by simp [answer, h4 v hv], h1, h2, h3, h4⟩
+    · next hv => exact ⟨rfl, h1, h2, h3, by simp⟩
+
+/-- For every history of queries the memoised answers are the uncached ones. -/
+theorem C01.memo_transparent (o : Op) (qs : List Query) : memoRun o {} qs = qs.map (answer o) := by
+  have key : ∀ (s : MemoState), MemoOk o s → memoRun o s qs = qs.map (answer o) := by
+    induction qs with
+    | nil => intro s _; rfl
+    | cons q qs ih =>
+      intro s hs
+      obtain ⟨ha, hs'⟩ := C01.memo_step o s q hs
+      simp only [memoRun, List.map_cons]
+      rw [ha, ih _ hs']
+  exact key {} ⟨by simp, by simp, by simp, by simp⟩
+
+/-! ### Non-vacuity: a nested tree with a huge repetition count satisfies the hypotheses -/
+
+example : (Op.pad (.rep (.uni [.leaf [1, 3], .leaf [7]]) (2 ^ 63)) 8).wf = true ∧ (1 : ℕ) ≤ 12 := by decide
+example : (Op.cat [.leaf [32], .rrep (.cat [.leaf [16], .rrep (.leaf [8]) 256]) 65536]).wf = true := by decide
